@@ -34,6 +34,10 @@ def step (_ : Unit) (line : String) : Unit × String :=
     match validate { ephemeral := eph, hsDir := d = "1", auth := auth, stealthArg := s = "1", key := k = "1", singleHop := h = "1" } with
     | .ok v => ((), "ok:" ++ (if v.ephemeral then "1" else "0") ++ ":" ++ showAuth v.auth)
     | .error r => ((), "refused:" ++ showRefusal r)
+  | ["relisten", p, b] =>
+    match p.toNat?, b.toNat? with
+    | some p, some b => ((), ";".intercalate ((listenAgain p b).map showEv) ++ " open=" ++ ",".intercalate ((openPorts (listenAgain p b)).map toString))
+    | _, _ => ((), "bad-op")
   | ["listen", p, b, f] =>
     match p.toNat?, b.toNat?, decFail f with
     | some p, some b, some f => ((), ";".intercalate ((listen p b f).map showEv) ++ " open=" ++ ",".intercalate ((openPorts (listen p b f)).map toString))
